@@ -24,6 +24,7 @@ class AbstractSpecification(object):
         self.ast = ast
         self.interpreter = None
         self.set_ast_flag = False # It is for interpreter is set ast or not.
+        self.set_offline_ast_flag = False # the same for the offline interpreter (a specification can have both)
         self.out_var = ''
         self.out_var_field = ''
         self.var_topic_dict = dict()
@@ -275,9 +276,9 @@ class AbstractOfflineSpecification(AbstractSpecification):
 
     # forwarding to interpreter
     def evaluate(self, *args, **kwargs):
-        if self.set_ast_flag != True:
+        if self.set_offline_ast_flag != True:
             self.offline_interpreter.set_ast(self.ast)
-            self.set_ast_flag = True
+            self.set_offline_ast_flag = True
 
         #TODO we may make it consistent with interpreter class.
         if isinstance(self.offline_interpreter, AbstractDenseTimeOfflineInterpreter):
